@@ -18,7 +18,7 @@
      (which logs exactly once and counts, `compileError_body`), or is followed by `errorCount++` in its
      block, or is one of eight listed calls that are issued only when the compilation has already failed
      or that return failure to a caller that counts.  `counter_resets`: `errorCount` is reset at the head
-     of compileTable (and in _lou_extParseDots), nowhere else — in particular NOT in compileString (F7).
+     of compileTable, of compileString (the F7 fix) and in _lou_extParseDots, nowhere else.
    * `compile_outcome`: on the control skeleton of compileTable, for every way the files may compile:
      a table is returned ↔ errorCount = 0 at cleanup; success returns exactly the requested tables and
      frees nothing; failure returns NULL for both, frees every table it allocated and has logged
@@ -106,11 +106,14 @@ theorem compileError_body :
       [("_lou_logMessage", 1, "if ( file )", true), ("_lou_logMessage", 1, "else", true)] ∧
     (countSites.filter (·.func == "compileError")).map (fun s => (s.depth, s.logInBlock)) = [(1, true)] := by decide
 
-/-- where `errorCount` is reset: at the head of compileTable and in _lou_extParseDots — not in compileString,
-    lou_compileString or getTable (finding F7: a failed compilation poisons later lou_compileString calls) -/
+/-- where `errorCount` is reset: at the head of compileTable, at the head of compileString (the `fix:` for
+    finding F7 — before it a failed compilation poisoned later lou_compileString calls) and in
+    _lou_extParseDots: every entry point of the compiler starts from zero, so the outcome of a compilation
+    does not depend on what was compiled before -/
 theorem counter_resets :
     (refs.filter (·.kind == "reset")).map (fun r => (r.func, r.stmt)) =
-      [("_lou_extParseDots", "errorCount = 0"), ("compileTable", "errorCount = warningCount = fileCount = 0")] := by decide
+      [("_lou_extParseDots", "errorCount = 0"), ("compileString", "errorCount = warningCount = 0"),
+       ("compileTable", "errorCount = warningCount = fileCount = 0")] := by decide
 
 /-- where it is read: the fallback and the return value of compileFile, the cleanup test of compileTable -/
 theorem counter_reads :
